@@ -256,6 +256,10 @@ func (g *GREASEEncryptedClientHelloExtension) Write(b []byte) (int, error) {
 	if !extData.ReadUint16LengthPrefixed(&ignored) {
 		return fullLen, errors.New("bad payload")
 	}
+	if len(ignored) < cipherLen(g.cipherSuite.AeadId, 0) {
+		// shorter than the AEAD tag: the pre-encryption length would wrap around uint16
+		return fullLen, errors.New("bad payload: shorter than the AEAD tag")
+	}
 	g.CandidatePayloadLens = []uint16{uint16(len(ignored) - cipherLen(g.cipherSuite.AeadId, 0))}
 
 	return fullLen, nil
